@@ -115,6 +115,7 @@ def rule_subtree_edit(ctx, F):
     else:
         ctx.bad("P2", "ts_subtree_edit:child-edit-anchor", "could not find the single `Edit child_edit = {…}` initialiser (found %d)" % len(ce))
     # end_byte used for the early `continue` counts the look-ahead
+    bind(fn, "end_byte", "_.bytes + _")
     eb = fn.ids_named("end_byte")
     d = fn.single_def(eb[0]) if eb else None
     if d is not None and M(fn).match("@has(ts_subtree_lookahead_bytes(*entry.tree))", d):
